@@ -15,8 +15,8 @@ from mc.lib.classify_spaces import exc_site
 ID = 'C16'
 LEVEL = 'exploration'
 RULE = (
-    'Finite lattice of parameter sets: (sd, theta_s, b, psi_s) on {0.05, '
-    '0.162, 1, 2} x {0.01, 0.5, 0.88, 1} x {0.01, 1, 7.4, 20} x {-1, -0.1, '
+    'Finite lattice of parameter sets: (sd, theta_s, b, psi_s) on {0.004, '
+    '0.05, 0.162, 1, 2} x {0.01, 0.5, 0.88, 1} x {0.01, 1, 7.4, 20} x {-1, -0.1, '
     '-0.024, -0.01} (the corners and interior of the bounds written to the '
     'PEST control file; thorough: a 6^4 lattice) through the real '
     'PeatclsmSpecificYield; levels: all 201 knots, all mid-points, beyond '
@@ -34,11 +34,11 @@ ASSUMPTIONS = [
     'difference is below the allclose tolerance at sd = 0.162)',
     'nothing is claimed between lattice points of the continuous parameters',
 ]
-SD = [0.05, 0.162, 1.0, 2.0]
+SD = [0.004, 0.05, 0.162, 1.0, 2.0]
 THETA = [0.01, 0.5, 0.88, 1.0]
 B = [0.01, 1.0, 7.4, 20.0]
 PSI = [-1.0, -0.1, -0.024, -0.01]
-SD6 = [0.02, 0.05, 0.162, 0.5, 1.0, 2.0]
+SD6 = [0.001, 0.004, 0.02, 0.05, 0.162, 0.5, 1.0, 2.0]
 THETA6 = [0.01, 0.2, 0.5, 0.7, 0.88, 1.0]
 B6 = [0.01, 0.5, 1.0, 3.0, 7.4, 20.0]
 PSI6 = [-1.0, -0.3, -0.1, -0.05, -0.024, -0.01]
@@ -50,7 +50,7 @@ ZMAX = [-20.0, 1.0, 5.0, 150.0]
 def BOUND(tier):
     return ('%d specific-yield parameter sets + the published set; %d '
             'transmissivity parameter sets x 9 levels'
-            % (256 if tier == 'quick' else 1296,
+            % (320 if tier == 'quick' else 1728,
                len(KS) * len(ALPHA) * len(ZMAX)))
 
 
